@@ -236,7 +236,7 @@ def check_emit_regeneration(repo: Repo, rep, rule: str = "R11.1") -> None:
         prov = Provenance(emit)
         code_vars = set()
         if writes:
-            code_vars = {x.id for x in ast.walk(writes[0].args[0]) if isinstance(x, ast.Name)}
+            code_vars = {x.id for w_ in writes for x in ast.walk(w_.args[0]) if isinstance(x, ast.Name)}
             for nm in list(code_vars):
                 for d in prov.defs.get(nm, []):
                     code_vars |= {x.id for x in ast.walk(d) if isinstance(x, ast.Name)}
@@ -245,7 +245,7 @@ def check_emit_regeneration(repo: Repo, rep, rule: str = "R11.1") -> None:
         if arg_ok and both:
             rep.ok(rule, sub1 + " regenerates from the union", f"`{norm(g)[:80]}`: code and alias names both come from the union", emit.loc(g))
         else:
-            rep.violation(rule, sub1 + " regenerates from the union", f"{emit.fq}|regen|{norm(g)}",
+            rep.violation(rule, sub1 + " regenerates from the union", f"{emit.fq}|regen",
                           f"`{norm(g)}`: the file content / the exported alias names are not both regenerated from the union of all clients' "
                           f"codes (argument `{norm(g.value.args[0]) if g.value.args else ''}`, targets {tnames}, written vars need `{ret_names}` and code): "
                           "other clients' exceptions disappear from the core's exports", emit.loc(g))
@@ -288,18 +288,31 @@ def run(repo: Repo, rep: Report, tier: str) -> None:
         if m is None:
             raise AnalysisError(f"anchor vanished: ExceptionsEmitter.{nm}")
     assert emit and upd and shared
+    from sa.flatten import flatten as _fl
+
+    upd = _fl(upd)  # reading / writing the registry file may live in private helpers
 
     # ---------------------------------------------------------------- R11.1 _update_registry
     sub0 = f"{mod.relpath}:ExceptionsEmitter._update_registry"
-    loads = [n for n in own_nodes(upd.node) if isinstance(n, ast.Assign) and isinstance(n.value, ast.Call) and dotted(n.value.func) == "json.load"]
+    loads = [n for n in own_nodes(upd.node) if isinstance(n, (ast.Assign, ast.AnnAssign)) and isinstance(n.value, ast.Call) and dotted(n.value.func) == "json.load"]
     dumps = [c for c in calls_in(upd.node) if dotted(c.func) == "json.dump"]
     rep.require(len(dumps) == 1, f"R11.1: expected one json.dump in _update_registry (found {len(dumps)})")
     if dumps and not loads:
         rep.violation("R11.1", sub0 + " read-modify-write", f"{upd.fq}|rmw|no-load",
                       "the existing registry file is never loaded into the dict that is written back: other clients' entries are lost", upd.loc(dumps[0]))
     if loads and dumps:
-        reg = norm(loads[0].targets[0])
+        reg = norm(loads[0].targets[0] if isinstance(loads[0], ast.Assign) else loads[0].target)
         dumped = norm(dumps[0].args[0]) if dumps[0].args else "?"
+        # names that (may) hold the loaded dict: the load target and everything assigned from it (`registry = loaded`)
+        aliases = {reg}
+        for _ in range(4):
+            for n in own_nodes(upd.node):
+                if isinstance(n, (ast.Assign, ast.AnnAssign)) and isinstance(n.value, ast.Name) and n.value.id in aliases:
+                    tg = n.targets[0] if isinstance(n, ast.Assign) else n.target
+                    if isinstance(tg, ast.Name):
+                        aliases.add(tg.id)
+        if dumped in aliases:
+            reg = dumped
         stores = [n for n in own_nodes(upd.node) if isinstance(n, ast.Assign) and isinstance(n.targets[0], ast.Subscript) and norm(n.targets[0].value) == reg]
         key_ok = [s for s in stores if isinstance(s.targets[0].slice, ast.Name) and s.targets[0].slice.id in upd.params]
         # `<reg>.update({<client key>: ...})` overwrites the entry just like item assignment (setdefault would NOT: it keeps a stale entry)
@@ -307,7 +320,8 @@ def run(repo: Repo, rep: Report, tier: str) -> None:
             if isinstance(c.func, ast.Attribute) and c.func.attr == "update" and norm(c.func.value) == reg and len(c.args) == 1 and isinstance(c.args[0], ast.Dict) \
                     and len(c.args[0].keys) == 1 and isinstance(c.args[0].keys[0], ast.Name) and c.args[0].keys[0].id in upd.params:
                 key_ok.append(c)  # type: ignore[arg-type]
-        rebinds = [n for n in own_nodes(upd.node) if isinstance(n, ast.Assign) and norm(n.targets[0]) == reg and n is not loads[0]]
+        rebinds = [n for n in own_nodes(upd.node) if isinstance(n, ast.Assign) and norm(n.targets[0]) == reg and n is not loads[0]
+                   and not (isinstance(n.value, ast.Name) and n.value.id in aliases)]
         fresh_after = [n for n in rebinds if n.lineno > loads[0].lineno]
         if dumped == reg and key_ok and not fresh_after:
             rep.ok("R11.1", sub0 + " read-modify-write", f"`{reg}` is loaded from the file, updated under the client key and dumped (no rebinding in between)", upd.loc(loads[0]))
